@@ -739,25 +739,35 @@ def check_C17(ctx, rt):
             if s is None:
                 continue
             ctx.distinct.add(smi)
-            from selfies.utils.smiles_utils import tokenize_smiles, SMILESTokenTypes
-            atom_toks = [str(t) for t in tokenize_smiles(smi) if t.token_type == SMILESTokenTypes.ATOM]
-            atom_maps = [m for m in maps if "Ring" not in m.token and "Branch" not in m.token and m.attribution is not None
-                         and len(m.attribution) == 1 and m.token not in gens.INDEX[1:9]]
-            # every SELFIES atom symbol <- its SMILES atom token, in order
-            sel_atoms = [m for m in maps if m.attribution and m.token.strip("[]=#/\\") and not ("Ring" in m.token or "Branch" in m.token)]
-            k = 0
-            for m in maps:
-                if m.attribution and len(m.attribution) >= 1 and not ("Ring" in m.token or "Branch" in m.token):
-                    tokn = m.attribution[0].token
-                    if tokn in atom_toks:
-                        k += 1
-            n_atoms = len(atom_toks)
-            # count atom symbols in the SELFIES string by reading the molecule
+            # every SELFIES atom symbol <- the SMILES atom token it was made from.  Atom tokens of the input by an
+            # independent tokenisation; atom symbols of the output = the symbols the decoder turns into atoms.
+            import re as _re
+            atom_toks = [t for t in oracles._TOKEN.findall(smi)
+                         if t.startswith("[") or t in ("Br", "Cl") or (len(t) == 1 and t.isalpha())]
             try:
-                if k < n_atoms and len(oracles.read_smiles(smi).atoms) == n_atoms:
-                    pass
-            except oracles.SmilesError:
-                pass
+                _o, dmaps = sf.decoder(s, attribute=True)
+            except Exception:
+                continue
+            sel_toks = [t for t in sf.split_selfies(s) if t != "."]
+            pos = []
+            for dm in dmaps:
+                if dm.token and (dm.token[0].isalpha() or dm.token[0] == "[") and dm.attribution:
+                    pos.append(dm.attribution[-1].index)
+            if len(pos) != len(atom_toks):
+                continue      # (counts differ only when the reference tokenisation does not apply)
+            need = {}
+            for i, t in zip(pos, atom_toks):
+                if i < len(sel_toks):
+                    need[(sel_toks[i], t)] = need.get((sel_toks[i], t), 0) + 1
+            have = {}
+            for m in maps:
+                for a in (m.attribution or []):
+                    have[(m.token, a.token)] = have.get((m.token, a.token), 0) + 1
+            for k, c in need.items():
+                if have.get(k, 0) < c:
+                    add_violation(ctx, "C17:encoder-atom", "a SELFIES atom symbol is not attributed to its SMILES atom token",
+                                  smiles=smi, symbol=k[0], smiles_token=k[1], selfies=s)
+                    break
         run_encoder_stream(ctx, rt, "encoder-attribution", pool[:rt.n(500, 8000)], "relaxed", relaxed(sf), flags="sa")
         ctx.sample({"selfies": "[C][C].[C][N]", "attribution": str(sf.decoder("[C][C].[C][N]", attribute=True)[1][-1])})
     finally:
